@@ -94,6 +94,59 @@ def sLeaf : GoType := .struct "Leaf".toUTF8.toList "pa".toUTF8.toList [(⟨"Flag
 
 example : goodT sT = true ∧ noIface sT = true ∧ goodT sLeaf = true := by decide +kernel
 
+/-- a universe: the two named types and the types of their fields -/
+def Uex (t : GoType) : Prop := t = sT ∨ t = sLeaf ∨ t = .str ∨ t = .int 0 ∨ t = .bool
+
+theorem uex_her : Her Uex := by
+  constructor
+  · intro e h; rcases h with h | h | h | h | h <;> simp [sT, sLeaf] at h
+  · intro n e h; rcases h with h | h | h | h | h <;> simp [sT, sLeaf] at h
+  · intro e h; rcases h with h | h | h | h | h <;> simp [sT, sLeaf] at h
+  · intro e h; rcases h with h | h | h | h | h <;> simp [sT, sLeaf] at h
+  · intro n p fs i ht h hi
+    rcases h with h | h | h | h | h
+    · simp only [sT, GoType.struct.injEq] at h
+      obtain ⟨_, _, rfl⟩ := h
+      match i, hi with
+      | 0, hi => simp at hi; subst hi; exact Or.inr (Or.inr (Or.inl rfl))
+      | 1, hi => simp at hi; subst hi; exact Or.inr (Or.inr (Or.inr (Or.inl rfl)))
+      | k + 2, hi => simp at hi
+    · simp only [sLeaf, GoType.struct.injEq] at h
+      obtain ⟨_, _, rfl⟩ := h
+      match i, hi with
+      | 0, hi => simp at hi; subst hi; exact Or.inr (Or.inr (Or.inr (Or.inr rfl)))
+      | k + 1, hi => simp at hi
+    · cases h
+    · cases h
+    · cases h
+
+theorem uex_inj : NameInj Uex := by
+  intro n p fs n' p' fs' h h' hk
+  rcases h with h | h | h | h | h <;> rcases h' with h' | h' | h' | h' | h' <;>
+    first
+    | (rw [h', h]; done)
+    | (simp [sT, sLeaf] at h h'; done)
+    | (exfalso
+       simp only [sT, sLeaf, GoType.struct.injEq] at h h'
+       obtain ⟨rfl, rfl, rfl⟩ := h
+       obtain ⟨rfl, rfl, rfl⟩ := h'
+       revert hk
+       decide +kernel)
+
+/-- the theorem about the code as it is applies: `pa.T` after `pa.Leaf` was registered -/
+example (j : JV) : recompose true [] (regAfter true [] [.register sLeaf]) sT j = recompose true [] (regAfter true [] []) sT j :=
+  history_independent_current Uex uex_her uex_inj [] [.register sLeaf] []
+    (by
+      intro e he
+      simp only [List.mem_singleton] at he
+      subst he
+      intro n p fs heq
+      simp only [derefT, sLeaf, GoType.struct.injEq] at heq
+      obtain ⟨rfl, rfl, rfl⟩ := heq
+      exact ⟨by decide +kernel, Or.inr (Or.inl rfl)⟩)
+    (by intro e he; cases he)
+    sT ⟨by decide +kernel, Or.inl rfl⟩ (by decide +kernel) j
+
 /-! ## the code as it is, at full strength -/
 
 /-- C16's second sentence at full strength -/
